@@ -238,7 +238,13 @@ class ObjView:
         fty = ty
         if fty is None and isinstance(self.ty, (TObj, TAbs)):
             fty = self.ty.fields.get(name)
+            if fty is None and isinstance(self.ty, TAbs):
+                fty = getattr(self.ty, "optional", {}).get(name)
         return spec.view_term(t, fty, self._heap)
+
+    def has(self, name):
+        """an optional attribute (TAbs.optional) is present in this heap"""
+        return Z.Val.b(z3.Select(self._spec.ctx.rd(self._heap, "has:" + name), Z.Val.id(self.t)))
 
     def __getattr__(self, name):
         if name.startswith("__"):
@@ -589,6 +595,7 @@ class Contract:
         self.body_key = ns.get("body_key")  # this contract is proved against the body of that function, while callers use the function's own (interface) contract
         self.announce = ns.get("announce", False)  # call sites of this function append a ghost `call` event (key, receiver, first argument)
         self.exact_raises = ns.get("exact_raises", False)  # a library raises exactly the named class, not an unknown subclass
+        self.ghost_call = ns.get("ghost_call")  # ghost_call(spec, ctx, **views): python-level record of a call made under this contract (callers' clauses read it)
         self.transparent = ns.get("transparent", False)  # callers execute the real body (inlined) instead of using the contract
         self.delegate = ns.get("delegate")  # (I, **bound) -> value: the abstract callee's outcome IS the outcome of this call (pass-through)
         self.is_async = ns.get("is_async", False)  # abstract coroutine function: the call returns an awaitable
